@@ -22,6 +22,10 @@
      same or a permuted order; float64 / float32) + single edits of the result + a small-scope exhaustive sweep: after every
      line the native adjacency read through the public API is well-formed (strictly sorted neighbourhoods, symmetric,
      binary-search lookups from both sides, counts) and holds the independently computed polynomial.
+(v)  (`c20_bulk.py`) every bulk / iterable mutator of CQM / QM / BQM / DQM on a fresh model with the FAILING element in the
+     MIDDLE of its argument (new labels / terms first): afterwards labels, num_variables and the native size agree, every
+     per-variable record can be read, expressions name only model variables, the adjacency audit of (iv) holds, and a
+     follow-up of valid calls (new variable, terms on it, read back, file round trip) succeeds.
 """
 import json
 import os
@@ -34,7 +38,7 @@ from concurrent.futures import ThreadPoolExecutor
 from fractions import Fraction as F
 
 from harness.common import VERIF, rat, run_driver
-from harness.props import c20_cpp, c20_sweep, c20_pyseq
+from harness.props import c20_cpp, c20_sweep, c20_pyseq, c20_bulk
 
 PY = '/venv/bin/python'
 
@@ -72,7 +76,7 @@ def render(st):
             f"lin?={1 if st['is_linear'] else 0};bvt={st.get('bvt', '-')}")
 
 
-CQM_STEPPED = ({'kadd', 'krm', 'kassign', 'kswap', 'crv', 'cfx', 'csv', 'cslb', 'csup', 'csvt'}
+CQM_STEPPED = ({'kadd', 'krm', 'kassign', 'kswap', 'crv', 'cfx', 'csv', 'cslb', 'csup', 'csvt', 'ccv'}
                | {p + e for p in 'ok' for e in ('al', 'sl', 'aq', 'ri', 'rv', 'sv')})
 
 
@@ -130,7 +134,7 @@ def finite(st):
 
 
 REPLAY_SRC = '''import os, sys, dimod
-from harness.props import c20_cpp, c20_sweep, c20_pyseq
+from harness.props import c20_cpp, c20_sweep, c20_pyseq, c20_bulk
 inc = os.path.join(os.path.dirname(dimod.__file__), 'include')
 exe = c20_cpp.build(inc, os.path.join(os.environ.get('VERIF_SCRATCH', '/var/tmp/dimod-verif'), 'c20-cache'))
 ops = %r
@@ -681,9 +685,11 @@ def run(ctx):
                 'printed state, const API consistency, Lean model; (ii) one malformed Python call per child process on fresh objects; '
                 'non-trivial = all (every op changes or probes a state; every malformed call exercises a rejection path); '
                 '(iv) valid Python call sequences on two cooperating QM / BQM models (receiver class x shared-variable order x operator), '
-                'native adjacency audited through the public API after every line')
+                'native adjacency audited through the public API after every line; (v) bulk / iterable mutators of CQM / QM / BQM / DQM with the failing '
+                'element in the middle: structural audit (labels vs native counts, per-variable records) and valid follow-up calls')
     cpp_part(ctx)
     boundary_part(ctx)
     dqm_sweep_part(ctx)
     c20_sweep.sweep_part(ctx)
     c20_pyseq.pyseq_part(ctx)
+    c20_bulk.bulk_part(ctx)
